@@ -65,6 +65,14 @@ SPECS = {
         cap={"quick": 1500, "thorough": 20000},
         event_cfg="EventGen_wide.cfg",
     ),
+    "C11": pcheck.PSpec(
+        "C11",
+        clauses=["Accepts", "Compiles", "BookingFault", "RowsMatch", "SpuriousFault", "SchemaMatches"],
+        profiles={"quick": [("MCQueryGen_userfn.cfg", None, {"fnmd": True}), ("MCQueryGen_userfn_d.cfg", None, {"fnmd": True})],
+                  "thorough": [("MCQueryGen_userfn_t.cfg", None, {"fnmd": True})]},
+        events={"quick": 6, "thorough": 16},
+        cap={"quick": 1200, "thorough": 20000},
+    ),
     "C12": pcheck.PSpec(
         "C12",
         clauses=["Accepts", "Compiles", "RowsMatch", "SpuriousFault", "BookingFault", "SchemaMatches"],
